@@ -198,7 +198,7 @@ class Run:
             lines += [l for l in open(path).read().split("\n") if l and not l.startswith("#")]
         return lines
 
-    def run_impl(self, variant, cases, tag, env_extra=None, binary=None):
+    def run_impl(self, variant, cases, tag, env_extra=None, binary=None, _depth=0):
         """returns (impl_lines, oracle list[(idx, kind, req, expected)])"""
         binp = binary or os.path.join(BIN, "vh-noasm" if variant == "noasm" else "vh")
         env = dict(self.env, **(env_extra or {}))
@@ -222,6 +222,16 @@ class Run:
                 orc.append((int(idx), kind, r_, expd))
         except FileNotFoundError:
             pass
+        # a watchdog expiry is confirmed by running that case alone (a loaded machine can stall a call for seconds);
+        # if it does not hang there, it and the cases the harness skipped after it are run again
+        h = next((i for i, l in enumerate(lines) if "HANG" in l and "after-hang" not in l), None)
+        if h is not None and _depth < 3:
+            one, orc1 = self.run_impl(variant, [cases[h]], tag + "-h", env_extra, binary, _depth=3)
+            if one and "HANG" not in one[0]:
+                self.say(f"impl({variant}): a watchdog expiry at case {h} did not repeat when the case ran alone; re-running it and the {len(cases) - h - 1} cases after it")
+                rest, orc2 = self.run_impl(variant, cases[h + 1:], tag + "-r", env_extra, binary, _depth=_depth + 1) if h + 1 < len(cases) else ([], [])
+                lines = lines[:h] + one + rest
+                orc = [o for o in orc if o[0] < h] + [(h, k, r_, e_) for (_, k, r_, e_) in orc1] + [(i + h + 1, k, r_, e_) for (i, k, r_, e_) in orc2]
         return lines, orc
 
     def run_driver(self, exe, lines):
